@@ -8,7 +8,7 @@ use digital_test_runner::TestCase;
 pub const META_C15: Meta = Meta {
     id: "C15",
     level: "exploration",
-    rule: "Four monitors per case (profiles `flow`+`expand`+`virtual`, 0-5 declare statements, some programs using random with the seed pinned through the hook, ~40% static programs): (1) re-parse: the same text is parsed and bound 6 times in one process (fresh HashMap RandomState each time) - all TestCase values must be ==, with identical `signals` order and identical Display; a digest of (Display, signal order, row stream) is also written per case and the orchestrator compares the digests produced by two separate processes (the dev-profile and release-profile shards run the same cases); (2) re-iterate: 3 iterations of one &TestCase with fresh devices replaying one script (one of them entered through the deprecated alias run_iter) give identical item streams, vars() and driver call logs; (2b) abandon: an iterator is dropped after a random number of steps (possibly inside a C/X expansion), the next full iteration must equal the first; (3) interleave: 2-4 iterators over one &TestCase, each with its own device, next() interleaved by round-robin / sequential / PRNG schedules - every stream equals the solo stream; (4) static: try_iter_static().is_ok() iff the model reads no outputs (scope rule of C11), and then its (inputs incl. changed, expected, line) stream equals the projection of every dynamic run against 4 devices (empty layout, all outputs unique numbers, all Z, permuted subset with X), error items at the same index; 6% of the cases carry a planted variable that is in scope, never assigned on the executed path and named like a device output (such a program reads no outputs), and the static stream consumed through step_by(2..4) must deliver every k-th item of the plain stream, and try_iter(&mut static_test::Driver) (the crate's own zero-sized driver handed to the dynamic entry point) must deliver the static stream too. Non-trivial = >= 2 virtual signals, or >= 2 interleaved iterators with >= 3 rows each under a non-sequential schedule, or a static program with a C/X expansion.",
+    rule: "Four monitors per case (profiles `flow`+`expand`+`virtual`, 0-5 declare statements, some programs using random with the seed pinned through the hook, ~40% static programs): (1) re-parse: the same text is parsed and bound 6 times in one process (fresh HashMap RandomState each time) - all TestCase values must be ==, with identical `signals` order and identical Display; a digest of (Display, signal order, row stream) is also written per case and the orchestrator compares the digests produced by two separate processes (the dev-profile and release-profile shards run the same cases); (2) re-iterate: 3 iterations of one &TestCase with fresh devices replaying one script (one of them entered through the deprecated alias run_iter, one iterating a clone() of the test without ever calling vars() - all other runs call vars() before the first next() and after every step) give identical item streams, vars() and driver call logs; (2b) abandon: an iterator is dropped after a random number of steps (possibly inside a C/X expansion), the next full iteration must equal the first; (3) interleave: 2-4 iterators over one &TestCase, each with its own device, next() interleaved by round-robin / sequential / PRNG schedules - every stream equals the solo stream; (4) static: try_iter_static().is_ok() iff the model reads no outputs (scope rule of C11), and then its (inputs incl. changed, expected, line) stream equals the projection of every dynamic run against 4 devices (empty layout, all outputs unique numbers, all Z, permuted subset with X), error items at the same index; 6% of the cases carry a planted variable that is in scope, never assigned on the executed path and named like a device output (such a program reads no outputs), and the static stream consumed through step_by(2..4) must deliver every k-th item of the plain stream, and try_iter(&mut static_test::Driver) (the crate's own zero-sized driver handed to the dynamic entry point) must deliver the static stream too. Non-trivial = >= 2 virtual signals, or >= 2 interleaved iterators with >= 3 rows each under a non-sequential schedule, or a static program with a C/X expansion.",
     assumptions: &["identical device scripts give identical answers (pure function of call index and signal)"],
     quick_cases: 40000,
     thorough_cases: 500000,
@@ -135,7 +135,8 @@ fn same_items(a: &[RealStep], b: &[RealStep]) -> Option<usize> {
     let n = a.len().max(b.len());
     for i in 0..n {
         match (a.get(i), b.get(i)) {
-            (Some(x), Some(y)) if x.item == y.item && x.vars == y.vars => {}
+            // (a run that never calls vars() has no snapshots to compare)
+            (Some(x), Some(y)) if x.item == y.item && (x.vars == y.vars || x.vars.is_none() || y.vars.is_none()) => {}
             _ => return Some(i),
         }
     }
@@ -270,9 +271,13 @@ pub fn c15(case_seed: u64, acc: &mut Acc) {
     for rep in 0..3 {
         // the second repetition enters through the deprecated alias `run_iter`, the third
         // iterates a clone of the test
+        // ... and never calls vars() (all other runs call it before the first next() and after
+        // every step)
         ENTER_THROUGH_RUN_ITER.with(|c| c.set(rep == 1));
+        NEVER_CALL_VARS.with(|c| c.set(rep == 2));
         let again = run_bound(if rep == 0 { tc } else if rep == 1 { &tcs[2] } else { &cloned }, &case.signals, &case.script, &opts);
         ENTER_THROUGH_RUN_ITER.with(|c| c.set(false));
+        NEVER_CALL_VARS.with(|c| c.set(false));
         acc.evaluations += 1;
         if format!("{:?}", again.0) != format!("{:?}", solo.0) {
             viol!(Finding::new("reiterate-constructor-differs", format!("{:?} vs {:?}", again.0, solo.0)));
